@@ -113,8 +113,27 @@ func freshFunctions(ref symTable, cfg string, pkgs map[string]*packages.Package)
 		for _, f := range pk.Syntax {
 			for _, d := range f.Decls {
 				fd, ok := d.(*ast.FuncDecl)
-				if !ok || fd.Body == nil || fd.Name.IsExported() || fd.Name.Name == "init" || fd.Name.Name == "main" || fd.Name.Name == "_" {
+				if !ok || fd.Body == nil || fd.Name.Name == "init" || fd.Name.Name == "main" || fd.Name.Name == "_" {
 					continue
+				}
+				if fd.Name.IsExported() {
+					// an exported name is API — except as a method of an unexported type the reference tree does not have
+					// (the Truncate/Chmod/… of an adapter type introduced by the change)
+					isFreshTypeMethod := false
+					if fd.Recv != nil && len(fd.Recv.List) == 1 {
+						t := fd.Recv.List[0].Type
+						if st, ok := t.(*ast.StarExpr); ok {
+							t = st.X
+						}
+						if id, ok := t.(*ast.Ident); ok && !id.IsExported() {
+							if e := ref[path+"|"+id.Name]; e == nil || !hasCfg(e, cfg) {
+								isFreshTypeMethod = true
+							}
+						}
+					}
+					if !isFreshTypeMethod {
+						continue
+					}
 				}
 				if fd.Type.TypeParams != nil {
 					continue
@@ -1048,7 +1067,7 @@ type closureVarSite struct {
 	pkg  *packages.Package
 	file *ast.File
 	decl ast.Stmt
-	lit  *ast.FuncLit
+	lit  ast.Expr // the function literal, or a method value / function name the variable was bound to
 	use  *ast.Ident
 }
 
@@ -1076,9 +1095,64 @@ func findClosureVars(pkgs map[string]*packages.Package) []closureVarSite {
 				}
 				return true
 			})
+			// identifiers that are assigned to or have their address taken somewhere in the file (by object)
+			mutated := map[types.Object]bool{}
+			ast.Inspect(f, func(n ast.Node) bool {
+				switch x := n.(type) {
+				case *ast.AssignStmt:
+					if x.Tok != token.DEFINE {
+						for _, l := range x.Lhs {
+							if id, ok := ast.Unparen(l).(*ast.Ident); ok {
+								if o := info.Uses[id]; o != nil {
+									mutated[o] = true
+								}
+							}
+						}
+					}
+				case *ast.UnaryExpr:
+					if x.Op == token.AND {
+						if id, ok := ast.Unparen(x.X).(*ast.Ident); ok {
+							if o := info.Uses[id]; o != nil {
+								mutated[o] = true
+							}
+						}
+					}
+				case *ast.IncDecStmt:
+					if id, ok := ast.Unparen(x.X).(*ast.Ident); ok {
+						if o := info.Uses[id]; o != nil {
+							mutated[o] = true
+						}
+					}
+				}
+				return true
+			})
 			consider := func(st ast.Stmt, name *ast.Ident, val ast.Expr) {
-				lit, ok := ast.Unparen(val).(*ast.FuncLit)
-				if !ok || name.Name == "_" {
+				var lit ast.Expr
+				switch x := ast.Unparen(val).(type) {
+				case *ast.FuncLit:
+					lit = x
+				case *ast.SelectorExpr:
+					// a method value of a variable that is never reassigned (x.m bound now or at the call is the same
+					// call), or a function of another package
+					if sel := info.Selections[x]; sel != nil && sel.Kind() == types.MethodVal {
+						if id, ok := ast.Unparen(x.X).(*ast.Ident); ok {
+							if o := info.Uses[id]; o != nil && !mutated[o] {
+								if _, isVar := o.(*types.Var); isVar && !types.IsInterface(o.Type()) {
+									lit = x
+								}
+							}
+						}
+					} else if sel == nil {
+						if _, isFunc := info.Uses[x.Sel].(*types.Func); isFunc {
+							lit = x
+						}
+					}
+				case *ast.Ident:
+					if _, isFunc := info.Uses[x].(*types.Func); isFunc {
+						lit = x
+					}
+				}
+				if lit == nil || name.Name == "_" {
 					return
 				}
 				obj := info.Defs[name]
